@@ -142,6 +142,9 @@ func cmdCheck(args []string) {
 	harnessDir := filepath.Join(*verif, "harness")
 	p := loadProg(*repo, harnessDir)
 	hs := p.Harnesses()
+	for _, d := range p.DroppedHarnessFiles {
+		fmt.Printf("NOT-CHECKED harness file does not compile against this tree (internals it touches were renamed or retyped) and was left out: %s\n", d)
+	}
 
 	deadline := time.Time{}
 	if ts.BudgetS > 0 {
@@ -166,7 +169,11 @@ func cmdCheck(args []string) {
 		}
 		fn := hs[h.H]
 		if fn == nil {
-			inconclusive = append(inconclusive, "harness not found: "+h.H)
+			if len(p.DroppedHarnessFiles) > 0 {
+				inconclusive = append(inconclusive, "harness not run, its file (or one it depends on) does not compile against this tree: "+h.H)
+			} else {
+				inconclusive = append(inconclusive, "harness not found: "+h.H)
+			}
 			continue
 		}
 		pols := h.Policies
@@ -482,10 +489,32 @@ func cmdCheck(args []string) {
 		"inconclusive":                  inconclusive,
 		"encoder_errors":                encoderErrors,
 		"vacuity_failures":              vacuous,
+		"harness_files_not_compiling":   p.DroppedHarnessFiles,
 		"explanation":                   spec.Explanation,
 		"exhaustive":                    false,
 		"complete_within_bounds":        !incomplete,
 		"rule":                          "one state = one explored symbolic path (decision prefix) of a harness; all paths within the stated bounds are explored, each assertion on each path is decided by z3 for all input values",
+	}
+	// basic-block coverage of the repository's own functions by this check
+	{
+		var sb strings.Builder
+		tot, miss, never := 0, 0, 0
+		for _, fc := range p.BlockCoverage() {
+			tot += fc.Total
+			miss += len(fc.Missed)
+			if !fc.Entered {
+				never++
+				fmt.Fprintf(&sb, "NEVER  %s (%d blocks)\n", fc.Name, fc.Total)
+			} else if len(fc.Missed) > 0 {
+				fmt.Fprintf(&sb, "PART   %s %d/%d missed: %s\n", fc.Name, len(fc.Missed), fc.Total, strings.Join(fc.Missed, " "))
+			}
+		}
+		fmt.Fprintf(&sb, "TOTAL blocks=%d missed=%d functions-never-entered=%d\n", tot, miss, never)
+		cov["repo_basic_blocks"] = map[string]int{"total": tot, "entered": tot - miss, "functions_never_entered": never}
+		if !*noEvidence {
+			os.MkdirAll(filepath.Join(*verif, "out", "coverage"), 0o755)
+			os.WriteFile(filepath.Join(*verif, "out", "coverage", id+"_"+*tier+".txt"), []byte(sb.String()), 0o644)
+		}
 	}
 	ev := map[string]interface{}{
 		"property_id": id, "tier": *tier, "seed": seed, "level": spec.Level, "coverage": cov,
